@@ -342,9 +342,9 @@ impl<'ast> Visit<'ast> for Scan {
                     syn::Expr::Path(p) => p.path.segments.last().map(|s| s.ident.to_string()).unwrap_or_default(),
                     _ => String::new(),
                 };
-                self.push_call("call", name, r, br(c.paren_token.span.close()).start, !c.args.is_empty())
+                self.push_call("call", name, r, br(c.paren_token.span.close()).start, !c.args.is_empty() && !c.args.trailing_punct())
             }
-            syn::Expr::MethodCall(m) => self.push_call("mcall", m.method.to_string(), r, br(m.paren_token.span.close()).start, !m.args.is_empty()),
+            syn::Expr::MethodCall(m) => self.push_call("mcall", m.method.to_string(), r, br(m.paren_token.span.close()).start, !m.args.is_empty() && !m.args.trailing_punct()),
             syn::Expr::Binary(b) => {
                 let op = self_src_op(&b.op);
                 self.push("binop", op, r, None, None, None)
